@@ -11,6 +11,11 @@ Driver of the C07 section of the oracle.  Header `@ C07 <codec>` with codec one 
   parsen <hex> <dstlen>   XxxParse(make([]byte,dstlen), bytes)   -> <n> <hex of dst[:n]> | panic
                           (large stream: only the result prefix is compared)
 
+  parseip <hex> <k> <dl>  ONE memory: dst = arena[0:dl], src = arena[k:k+len] (k = 0: XxxParse(b, b), in place;
+                          dl ≥ len(src)) -> <n> <hex of dst[:n]>; evaluated by the one-memory machine
+                          `runIP` (Model/C07InPlace.lean; `c07_inplace_eq`: same bytes as a fresh buffer)
+  parsew <hex> <dl> <gap> dst a window of src's arena BEHIND src (disjoint, `gap` bytes apart) -> as parsen
+
 Inputs longer than 4096 bytes are evaluated by the linear-time `parseFast` (equal to the
 cursor model by `c07_fast_eq_model`); `parsen` with `dstlen < len(src)` always runs the
 cursor model (the harness keeps those inputs ≤ 4 KB).
@@ -28,6 +33,7 @@ down to one `format`/`roundtrip`/`parsestr` line):
 -/
 import Golib.Model.C07Enc
 import Golib.Model.C07Fast
+import Golib.Model.C07InPlace
 
 namespace Golib.C07
 open Golib.Proto
@@ -135,7 +141,7 @@ def runOp (c : DrvCodec) (t : List String) : String :=
         toString (foldRange (mixEscape c lower) (hi + 1 - lo) lo h0).toNat
       else "bad-op"
     | _, _, _ => "bad-op"
-  | ["parsen", h, n] =>
+  | ["parsen", h, n] | ["parsew", h, n, _] =>
     match unhex h, n.toNat? with
     | some b, some n =>
       if b.length ≤ n ∧ 4096 < b.length then
@@ -147,6 +153,17 @@ def runOp (c : DrvCodec) (t : List String) : String :=
         | .panic => "panic"
         | .fuel => "timeout"
     | _, _ => "bad-op"
+  | ["parseip", h, k, dl] =>
+    match unhex h, k.toNat?, dl.toNat? with
+    | some b, some k, some dl =>
+      if dl < b.length ∨ 65536 < k then "bad-op"
+      else if 4096 < b.length then
+        let o := parseFast c.decQ b
+        s!"{o.length} {hex o}"
+      else
+        let (n, o) := runIP c.decQ k (List.replicate k 170 ++ b)
+        s!"{n} {hex o}"
+    | _, _, _ => "bad-op"
   | ["roundtrip", h] =>
     match unhex h with
     | none => "bad-op"
